@@ -303,6 +303,29 @@ def _random_seq(run, count, stream="random"):
         yield "seq %d %s %s s %s" % (cap, _chunks(rng), _hex(data), " ".join(ops)), stream
 
 
+def _huff_streams(run, count):
+    """long runs of read_huffman with codes of 9..15 bits at small capacities (public API; in situ only the code-length code, at most 7
+    bits, goes through read_huffman): a code word that needs two more bytes when exactly one is left in the buffer, at every
+    alignment (interleaved single bits and short reads)"""
+    rng = run.rng
+    for _ in range(count):
+        cap = rng.choice([16, 16, 17, 20, 24, 31, 32, 33, 48, 64])
+        if rng.random() < .5:
+            lens = list(range(1, 16)) + [15]                      # 1,2,...,15,15
+        else:
+            k = rng.choice([20, 40, 100])
+            lens = V.rand_lengths(rng, k, 15, True)
+        syms = rng.sample(range(0, 300), len(lens))
+        tree = "T0=" + ",".join("%d:%d" % p for p in zip(syms, lens))
+        n = rng.choice([200, 400, 1200])
+        data = _rand_bytes(rng, n) if rng.random() < .5 else bytes(rng.choice([0xff, 0xfe, 0x7f, 0xff, rng.randrange(256)]) for _ in range(n))
+        ops = []
+        for _ in range(rng.choice([150, 400, 900])):
+            r = rng.random()
+            ops.append("h0" if r < .8 else "b" if r < .9 else "r%d" % rng.randint(1, 9))
+        yield "seq %d %s %s s %s %s" % (cap, _chunks(rng), _hex(data), tree, " ".join(ops)), "huffman-long-codes"
+
+
 def _malformed_seq(run, count):
     """sequences outside the guarantees: over-wide reads, invalid LZ77 codes, unguarded buffer-only reads, requests beyond
     8*cap-7, bare fill_buf, continuing after errors, capacities below 16"""
@@ -339,7 +362,7 @@ def _malformed_seq(run, count):
 def _lossless(run, n_streams, caps_per_stream, stream_name="insitu-lossless"):
     rng = run.rng
     for i in range(n_streams):
-        style = ["plain", "deep", "extrabits", "arbdeep", "extradeep"][i % 5]
+        style = ["plain", "deep", "extrabits", "arbdeep", "extradeep", "onedist"][i % 6]
         W, H, data, facts = V.build_lossless(rng, style)
         variants = [("valid", data)]
         k = rng.random()
@@ -374,7 +397,7 @@ def _insitu_files(run, n, caps_per_file=4):
     """whole .webp files (RIFF + VP8L chunk) through webpsan::sanitize under the capacity hook"""
     rng = run.rng
     for i in range(n):
-        W, H, data, _ = V.build_lossless(rng, ["plain", "deep", "extrabits", "arbdeep", "extradeep"][i % 5])
+        W, H, data, _ = V.build_lossless(rng, ["plain", "deep", "extrabits", "arbdeep", "extradeep", "onedist"][i % 6])
         variants = [("valid", data)]
         if len(data) > 4:
             variants.append(("trunc", data[:rng.randint(1, len(data) - 1)]))
@@ -402,7 +425,8 @@ def gen(run):
     yield from _exhaustive_small(run)
     yield from _random_seq(run, 1500 if quick else 40000)
     yield from _malformed_seq(run, 400 if quick else 6000)
-    yield from _lossless(run, 45 if quick else 600, 6 if quick else None)
+    yield from _huff_streams(run, 60 if quick else 1500)
+    yield from _lossless(run, 48 if quick else 600, 6 if quick else None)
     yield from _insitu_files(run, 30 if quick else 300, 4 if quick else None)
 
 
